@@ -1,9 +1,12 @@
 ----------------------------- MODULE LatticeMC -----------------------------
 (* Exhaustive check of the lattice laws ON THE MODEL, for every descriptor of the catalogue
    and every value of its carrier (job 1 of the family: a wrong model is caught here, before
-   it is used as the oracle for the code).  One state per (descriptor, value) and per
-   (bimorphism, left value); the invariants quantify over the other values. *)
-EXTENDS LatticeCat
+   it is used as the oracle for the code).  One state per (descriptor, abstract value) and per
+   (bimorphism, left value); the invariants quantify over the other values.  With EMIT = TRUE
+   the same run writes the test vectors (job 2, definitions in LatticeGen). *)
+EXTENDS LatticeGen
+
+CONSTANT EMIT      \* TRUE: also write the vector files (LatticeGen) under IOEnv.OUT
 
 VARIABLES ph, ty, val
 vars == <<ph, ty, val>>
@@ -17,7 +20,7 @@ PickType ==
 
 PickValue ==
     /\ ph = "type"
-    /\ \E r \in Reps(Catalogue[ty]) : val' = r
+    /\ \E v \in Values(Catalogue[ty]) : val' = v
     /\ ph' = "value" /\ UNCHANGED ty
 
 PickNonLattice ==
@@ -32,10 +35,20 @@ PickBimo ==
 
 PickBimoValue ==
     /\ ph = "bimo"
-    /\ \E r \in Reps(Bimos[ty].ta) : val' = r
+    /\ \E v \in Values(Bimos[ty].ta) : val' = v
     /\ ph' = "bimovalue" /\ UNCHANGED ty
 
-Next == PickType \/ PickValue \/ PickNonLattice \/ PickBimo \/ PickBimoValue
+\* vector emission (spec -> code), one file per descriptor / bimorphism
+EmitType ==
+    /\ EMIT /\ ph = "type"
+    /\ ndJsonSerialize(IOEnv.OUT \o "/" \o ty \o ".ndjson", TypeLines(ty))
+    /\ ph' = "emitted" /\ UNCHANGED <<ty, val>>
+EmitBimo ==
+    /\ EMIT /\ ph = "bimo"
+    /\ ndJsonSerialize(IOEnv.OUT \o "/bimo_" \o ty \o ".ndjson", BimoLines(ty))
+    /\ ph' = "emitted" /\ UNCHANGED <<ty, val>>
+
+Next == PickType \/ PickValue \/ PickNonLattice \/ PickBimo \/ PickBimoValue \/ EmitType \/ EmitBimo
 Spec == Init /\ [][Next]_vars
 
 -----------------------------------------------------------------------------
@@ -49,7 +62,7 @@ TypeLaws ==
 
 ValueLawsHold ==
     ph = "value" =>
-        LET t == Catalogue[ty]  V == Values(t) IN ValueLaws(t, V, Abs(t, val))
+        LET t == Catalogue[ty]  V == Values(t) IN ValueLaws(t, V, val)
 
 (* the documented non-lattice: key not totally ordered => associativity fails *)
 NonLatticeDocumented ==
@@ -58,5 +71,5 @@ NonLatticeDocumented ==
 
 BimoLawsHold ==
     ph = "bimovalue" =>
-        LET b == Bimos[ty] IN BimoLaws(b.f, b.ta, b.tb, b.to, Abs(b.ta, val))
+        LET b == Bimos[ty] IN BimoLaws(b.f, b.ta, b.tb, b.to, val)
 =============================================================================
